@@ -346,7 +346,13 @@ class World:
     def _container_op(self, target, o, owner=None):
         cinco = self.cinco
         m = o["m"]
-        val = lambda v: value_to_py(cinco, v, None, self.root)  # noqa
+
+        def val(v):
+            if v["t"] == "cfgobj":
+                # a ready-made configuration of the list's item schema / config type
+                return target.item_field()
+            return value_to_py(cinco, v, None, self.root)
+
         if m == "append":
             target.append(val(o["v"]))
         elif m == "insert":
@@ -413,6 +419,11 @@ class Adapter:
         out["repl"] = r["repl"]
         if r["repl_other"]:
             out["repl"] = r["repl"] + [["<other>"] + p for p in r["repl_other"]]
+        if getattr(self, "focus", None) == "C15" and r["out"] == "ValidationError" and (
+            ev["op"] in ("SetAttr", "SetItem", "Ctor", "Load") or (ev["op"] == "COp" and ev["o"]["m"] in ("append", "extend", "iadd", "item_set"))
+        ):
+            # the reference path the error names (C15 compares it with the specification's)
+            out["errpath"] = r.get("errpath") or ""
         w.last = r
         return out
 
